@@ -4,16 +4,17 @@ CONSTANTS MaxN, ElfSizes, ElfRots
 
 \* ---- Elf corpus (C19): count x entry size x string-table index x section bytes x raw types --------------
 ExtAddr == <<0, 0, 0, 16, 0, 0, 0, 0>>             \* 0x1000_0000: where the harness maps the string table
-ExtData == <<0, 46, 116, 101, 120, 116, 0, 46, 195, 169, 0, 255, 0>>   \* "\0.text\0.<e-acute>\0<invalid>\0"
+\* "\0.text\0.<e-acute>\0<invalid>\0", then (index 13) a name of 300 letters - names are as long as their NUL says
+ExtData == <<0, 46, 116, 101, 120, 116, 0, 46, 195, 169, 0, 255, 0>> \o [i \in 1..300 |-> 97 + (i % 26)] \o <<0>>
 RawTypes == << <<0, 0, 0, 0>>, <<1, 0, 0, 0>>, <<11, 0, 0, 0>>, <<12, 0, 0, 0>>, <<255, 255, 255, 95>>,
                <<0, 0, 0, 96>>, <<255, 255, 255, 111>>, <<0, 0, 0, 112>>, <<255, 255, 255, 127>>, <<0, 0, 0, 128>> >>
-NameIdx == <<1, 7, 11, 0>>
+NameIdx == <<1, 13, 7, 11, 0>>
 \* entry i of an ELF table with entry size es: markers, a raw type from the rotation, a valid name index,
 \* and (for the string-table entry) the external address
 BadAddr == <<0, 0, 0, 32, 0, 0, 0, 0>>             \* 0x2000_0000: nothing is mapped there
 ElfEntryBytesA(es, i, rot, isStr, addr) ==
   LET b == [j \in 1..es |-> FillB(i * 64 + j)]
-      withT == IF es >= 8 THEN Override(Override(b, 0, U32Bytes(NameIdx[(i % 4) + 1])), 4, RawTypes[((i + rot) % 10) + 1]) ELSE b IN
+      withT == IF es >= 8 THEN Override(Override(b, 0, U32Bytes(NameIdx[(i % 5) + 1])), 4, RawTypes[((i + rot) % 10) + 1]) ELSE b IN
   IF ~isStr THEN withT
   \* the string-table entry: its address, and (odd rotations) a section size of 2 - names are NUL-terminated strings at
   \* the table's address; the table's own size field takes no part in resolving them
